@@ -253,6 +253,10 @@ void mp_sqrtrem(integer_class &a, integer_class &b, const integer_class &i)
 // return nonzero if i is probably prime.
 int mp_probab_prime_p(const integer_class &i, unsigned retries)
 {
+    // like mpz_probab_prime_p: the primality of |i| is tested (miller_rabin_test
+    // throws std::range_error on a negative argument)
+    if (i < 0)
+        return mp_probab_prime_p(mp_abs(i), retries);
     if (i % 2 == 0)
         return (i == 2);
     return miller_rabin_test(i, retries);
